@@ -210,3 +210,47 @@ def sany(module):
                        stdout=subprocess.PIPE, stderr=subprocess.STDOUT, text=True, cwd=SPEC)
     ok = p.returncode == 0 and "error" not in p.stdout.lower().replace("errors: 0", "")
     return ok, p.stdout
+
+
+# ---------------------------------------------------------------------------
+# unbounded checks of small integer-level modules: Apalache (inductive invariant) and TLAPS
+def apalache_inductive(module, init="Init", ind="IndInv", safety=None, timeout=900):
+    """Three bounded queries that together are an unbounded proof: Init => IndInv (length 0),
+    IndInv /\\ Next => IndInv' (length 1 from IndInv), IndInv => safety (length 0 from IndInv); plus a
+    negative control (~IndInv is not an invariant) so that a vacuous IndInv cannot pass.
+    Returns wall seconds; raises MachineryError when a query fails."""
+    import shutil
+    t0 = time.time()
+    if shutil.which("apalache-mc") is None:
+        raise MachineryError("apalache-mc is not on PATH")
+    out = workdir("apalache_" + module)
+    src = os.path.join(SPEC, module + ".tla")
+    queries = [(init, ind, 0, True), (ind, ind, 1, True)]
+    if safety:
+        queries.append((ind, safety, 0, True))
+    queries.append((init, "NotInit", 0, False))
+    for q_init, q_inv, length, expect_ok in queries:
+        p = subprocess.run(["apalache-mc", "check", "--init=" + q_init, "--inv=" + q_inv, "--length=%d" % length,
+                            "--out-dir=" + out, src], stdout=subprocess.PIPE, stderr=subprocess.STDOUT, text=True,
+                           timeout=timeout, cwd=out)
+        ok = "The outcome is: NoError" in p.stdout
+        if ok != expect_ok:
+            raise MachineryError("apalache %s: --init=%s --inv=%s --length=%d gave %s\n%s"
+                                 % (module, q_init, q_inv, length, "NoError" if ok else "an error", p.stdout[-1500:]))
+    return time.time() - t0
+
+
+def tlaps(module, timeout=900):
+    """tlapm on a copy of the module (its cache goes to the scratch directory). Returns (obligations, wall)."""
+    import shutil
+    t0 = time.time()
+    if shutil.which("tlapm") is None:
+        raise MachineryError("tlapm is not on PATH")
+    out = workdir("tlaps_" + module)
+    shutil.copy(os.path.join(SPEC, module + ".tla"), out)
+    p = subprocess.run(["tlapm", module + ".tla"], stdout=subprocess.PIPE, stderr=subprocess.STDOUT, text=True,
+                       timeout=timeout, cwd=out)
+    m = re.search(r"All (\d+) obligations? proved", p.stdout)
+    if p.returncode != 0 or not m:
+        raise MachineryError("tlapm %s failed:\n%s" % (module, p.stdout[-2000:]))
+    return int(m.group(1)), time.time() - t0
